@@ -450,3 +450,15 @@ func edgeList(m map[Edge]bool) []Edge {
 	})
 	return out
 }
+
+// onlyOnSuccess: the target is reachable only over an edge on which the error of the matched call was found nil
+// (the dual of "unreachable from the error edge": a guard weakened to `err != nil && X` fails it).
+func (c *Ctx) onlyOnSuccess(f *Flow, call Match, target Match, key, rule, where string) bool {
+	okEdges, n := f.ErrEdgesOf(call, false)
+	if n == 0 || len(okEdges) == 0 {
+		c.Undecided(key, rule, where, "the call's error is not tested in the recognised idiom")
+		return false
+	}
+	w := f.search(searchSpec{avoidEdges: okEdges, target: target})
+	return c.Check(w == nil, key, rule, where, f.describe(w))
+}
